@@ -66,6 +66,7 @@ pub enum COp {
     Remove(Vec<u8>),
     RRange(String, String),
     Get(Vec<u8>),
+    Reader(Vec<u8>),
     GetRange(Vec<u8>, u64, u64),
     Ckpt,
     Cleanup,
@@ -79,6 +80,7 @@ pub fn parse_cop(s: &str) -> COp {
         ["remove", k] => COp::Remove(unhx(k)),
         ["rrange", lo, hi] => COp::RRange(lo.to_string(), hi.to_string()),
         ["get", k] => COp::Get(unhx(k)),
+        ["reader", k] => COp::Reader(unhx(k)),
         ["grange", k, s, e] => COp::GetRange(unhx(k), s.parse().unwrap(), e.parse().unwrap()),
         ["ckpt"] => COp::Ckpt,
         ["cleanup", ..] => COp::Cleanup,
@@ -130,6 +132,15 @@ fn exec_op<K: HKey>(cas: &Cas<K>, stats: Option<&OrphanStats<K>>, op: &COp) -> S
         COp::Get(k) => match cas.get(&key(k)) {
             Ok(None) => "absent".into(),
             Ok(Some(b)) => format!("found_{}", hx(&b)),
+            Err(e) => err(e),
+        },
+        COp::Reader(k) => match cas.get_reader(&key(k)) {
+            Ok(None) => "absent".into(),
+            Ok(Some(mut r)) => {
+                use std::io::Read;
+                let mut b = Vec::new();
+                match r.read_to_end(&mut b) { Ok(_) => format!("found_{}", hx(&b)), Err(_) => "err_read".into() }
+            }
             Err(e) => err(e),
         },
         COp::GetRange(k, s, e) => match cas.get_range(&key(k), *s, *e) {
